@@ -1170,6 +1170,11 @@ class KeccakRegistry:
         if hash_value is None:
             return
 
+        # keccak256("") is a constant without a preimage term: there is no structure to recover from
+        # (an offset from) its value, so storage locations near it stay plain literals
+        if expr.num_args() == 0:
+            return
+
         hash_value = int.from_bytes(hash_value)
         self._hash_values[hash_value] = expr
 
